@@ -178,9 +178,27 @@ DROP_ATTR_RE = re.compile(
     r"^\s*#\[(account|zero_copy|repr|error_code|msg|inline|allow|cfg_attr|constant|must_use|event|doc|deprecated|access_control|instruction|cold|default|non_exhaustive)\b")
 
 
+def _join_multiline_attrs(lines):
+    """an attribute whose brackets close on a later line (`#[instruction(\n a: u64,\n)]`) becomes one logical line"""
+    out, i = [], 0
+    while i < len(lines):
+        ln = lines[i]
+        if re.match(r"^\s*#\[", ln) and ln.count("[") + ln.count("(") > ln.count("]") + ln.count(")"):
+            j, acc = i, ln
+            while j + 1 < len(lines) and acc.count("[") + acc.count("(") > acc.count("]") + acc.count(")"):
+                j += 1
+                acc = acc.rstrip() + " " + lines[j].strip()
+            out.append(acc)
+            i = j + 1
+        else:
+            out.append(ln)
+            i += 1
+    return out
+
+
 def filter_attr_lines(lines, log):
     out = []
-    for ln in lines:
+    for ln in _join_multiline_attrs(lines):
         s = ln.strip()
         if s.startswith("///") or s.startswith("//!"):
             continue
